@@ -34,6 +34,8 @@ KNOWN_EXPIRY = "guaranteed-fragmented-message-lost-to-context-expiry"
 
 def post_fn(op, out):
     k = op.split()[0]
+    if k == "sizes":
+        return out
     if k == "send":
         return out
     if k == "recv":
@@ -59,7 +61,7 @@ def sizes_for(mtu):
     return sorted(s)
 
 
-def gen_size_case(real, rng, cid, mtu, lengths, loss_plan, later=()):
+def gen_size_case(real, rng, cid, mtu, lengths, loss_plan, later=(), lossy=None):
     """guaranteed sends of the given lengths from a to b; loss_plan(k, direction) -> lost? for emission k; then healed"""
     lines = ["case %s" % cid]
     glog = []
@@ -77,24 +79,34 @@ def gen_size_case(real, rng, cid, mtu, lengths, loss_plan, later=()):
         for e in "ab":
             emit("set %s key=%s status=2 si=16 ka=96 ot=1024" % (e, connlib.KEY.hex()))
         seed = rng.randint(1, 10 ** 6)
+        # warm-up over a perfect link: a connection that has already carried a few messages each way
+        for w in range(3):
+            t += 17
+            for e, p in (("a", "b"), ("b", "a")):
+                seed += 1
+                emit("send %s len=%d seed=%d retry=0 cb=-" % (e, 9 + w, seed))
+                o = emit("build %s t=%d" % (e, t))
+                if o and o[0].startswith("pkt"):
+                    emit("recv %s t=%d d=@%s:%d" % (p, t, e, len(run.eps[e]["emits"]) - 1))
+        t0 = t
         for i, n in enumerate(lengths):
             seed += 1
             emit("send a len=%d seed=%d retry=-1 cb=%d" % (n, seed, i + 1))
         k = {"a": 0, "b": 0}
         steps = 0
-        lossy_until = t + rng.choice([600, 1500, 3000])
+        lossy_until = t + (lossy or rng.choice([600, 1500, 3000]))
         while steps < 700:
             steps += 1
             t += 17
             for (when, n) in later:
-                if t - 17 - connlib.BASE_T < when <= t - connlib.BASE_T:
+                if t - 17 - t0 < when <= t - t0:
                     seed += 1
                     emit("send a len=%d seed=%d retry=-1 cb=%d" % (n, seed, 90))
             for e, p in (("a", "b"), ("b", "a")):
                 o = emit("build %s t=%d" % (e, t))
                 if o and o[0].startswith("pkt"):
                     kk = len(run.eps[e]["emits"]) - 1
-                    lost = t < lossy_until and loss_plan(kk, e, t - connlib.BASE_T, [m[0] for m in glog[-1]["pkt"]["msgs"]])
+                    lost = t < lossy_until and loss_plan(kk - 3, e, t - t0, [m[0] - 3 for m in glog[-1]["pkt"]["msgs"]])
                     if not lost:
                         emit("recv %s t=%d d=@%s:%d" % (p, t, e, kk))
                 emit("tmo %s t=%d" % (e, t))
@@ -199,14 +211,16 @@ def known_finding_case(real):
 def run(ctx):
     real = connlib.Real()
     rng = ctx.rng
-    cases = [known_finding_case(real)]
-    mtus = [1500, 512, 1098, 1097, 576, 1280, 1096, 1095]
+    cases = [known_finding_case(real), connlib.sizes_case()]
+    mtus = [1500, 512, 1098, 1097, 576, 1280, 1096, 1095, 1090, 1093]
     per = ctx.scale(14, 200)
     for mi, mtu in enumerate(mtus):
         pool = sizes_for(mtu)
         for j in range(per if mi < 3 else max(3, per // 4)):
             lengths = [rng.choice(pool) for _ in range(rng.randint(1, 3))]
-            kind = rng.choice(["none", "single", "pair", "burst", "acks"])
+            kind = ["blackout", "blackout2", "none", "single", "pair", "burst", "acks"][j % 7] if j < 7 else \
+                rng.choice(["none", "single", "pair", "burst", "acks", "blackout", "blackout2"])
+            dark = rng.choice([1100, 1300, 2200, 2900])
             lost = set()
             if kind == "single":
                 lost = {rng.randint(0, 6)}
@@ -215,8 +229,10 @@ def run(ctx):
             elif kind == "burst":
                 s0 = rng.randint(0, 5)
                 lost = set(range(s0, s0 + rng.randint(2, 40)))
-            plan = (lambda k, e, trel, msgs, _l=lost, _k=kind: (e == "b") if _k == "acks" else (e == "a" and k in _l))
-            cases.append(gen_size_case(real, rng, "z%d_%d" % (mtu, j), mtu, lengths, plan))
+            # blackout: every datagram (of the sender / of both sides) is lost for longer than the message time-out
+            plan = (lambda k, e, trel, msgs, _l=lost, _k=kind, _d=dark: (e == "b") if _k == "acks" else
+                    (e == "a" and trel < _d) if _k == "blackout" else (trel < _d) if _k == "blackout2" else (e == "a" and k in _l))
+            cases.append(gen_size_case(real, rng, "z%d_%d" % (mtu, j), mtu, lengths, plan, lossy=3000 if kind.startswith("blackout") else None))
     # mixed traffic under random loss, healed at the end
     for i in range(ctx.scale(20, 400)):
         mtu = rng.choice(mtus)
